@@ -17,10 +17,15 @@ Fixpoint le_word (n : nat) (x : Z) : bytes :=
   | S k => let (q, r) := Z.div_eucl x 256 in r :: le_word k q
   end.
 
-(* big-endian magnitude without leading zero bytes (no byte at all for 0) *)
-Definition mag_len (m : Z) : nat := if m =? 0 then O else Z.to_nat (Z.log2 m / 8 + 1).
-Definition be_mag (m : Z) : bytes :=
-  let n := mag_len m in map (fun i => (m / 256 ^ Z.of_nat (n - 1 - i)) mod 256) (seq 0 n).
+(* big-endian magnitude without leading zero bytes (no byte at all for 0): positional notation base 256,
+   the digits of m / 256 followed by the last digit m mod 256; fuel = number of bits, always enough
+   (C05_be_mag_spec: the digits denote m and the first one is not 0) *)
+Fixpoint be_mag_fuel (fuel : nat) (m : Z) : bytes :=
+  match fuel with
+  | O => []
+  | S k => if m =? 0 then [] else be_mag_fuel k (m / 256) ++ [m mod 256]
+  end.
+Definition be_mag (m : Z) : bytes := be_mag_fuel (Z.to_nat (Z.log2 m + 1)) m.
 
 (* UTF-16LE by definition *)
 Definition utf16le_cp (c : Z) : bytes :=
